@@ -82,6 +82,14 @@ Noise == {"chmod", "write", "rej-write", "bak-mkdirp", "bak-write", "rmdir", "ap
 TNoise == l <= Len(T) /\ Ev.ev \in Noise /\ Adv /\ Stutter
 
 \* ---- silent steps: Push actions that have no hook event; each strictly advances a worker ------
+\* A real thread that met an error stops for all the name components it serves: their remaining file patches are in
+\* patches not before the one with the error, so they either do not matter (the push ends with the error) or would be
+\* rolled back again (an earlier patch fails): the model worker simply stops.
+SkipAfterError(w) ==
+  /\ wpc[w] = "apply" /\ queue[w] # <<>>
+  /\ \E v \in Workers : cur[v].eidx # 0 /\ Head(queue[w]).idx >= cur[v].eidx
+  /\ wpc' = [wpc EXCEPT ![w] = "applied"]
+  /\ UNCHANGED <<scn, files, dirs, rej, bak, applied, exit, nextIno, written, queue, mem, stack, cur, err, earliest, final, cleanq, rejq, mainpc, ops, faulted>>
 StopCond(w) == IF queue[w] = <<>> THEN TRUE ELSE Head(queue[w]).idx > earliest
 Silent ==
   /\ UNCHANGED <<t, l>>
@@ -92,6 +100,10 @@ Silent ==
      \/ \E w \in Workers : /\ wpc[w] = "backup" /\ BackupStep(w)
                            /\ (~DoBackup \/ stack[w] = <<>> \/ stack[w][Len(stack[w])].idx < DownTo)
      \/ Join
+     \/ (ApplyError /\ BarrierApply)
+     \/ \E w \in Workers : SkipAfterError(w)
+     \* the single-threaded driver returns the error of a file patch at once: there is no event for that step
+     \/ \E w \in Workers : scn.seq /\ wpc[w] = "apply" /\ queue[w] # <<>> /\ Head(queue[w]).fp.kind = "E" /\ Consider(w)            \* the push ends with a worker's error: there is no save phase event
      \/ (mainpc = "clean" /\ cleanq = {} /\ CleanStep)
      \/ (mainpc = "rejects" /\ rejq = {} /\ RejStep)
      \/ (mainpc = "record" /\ scn.cfg.dry /\ Finish)
